@@ -96,17 +96,16 @@ func (q *queryServer) QueryNodesForPlan(c context.Context, req *types.QueryNodes
 	)
 
 	pagination, err := query.FilteredPaginate(store, req.Pagination, func(key, _ []byte, accumulate bool) (bool, error) {
-		if !accumulate {
-			return false, nil
-		}
-
 		item, found := q.GetNode(ctx, key[1:])
 		if !found {
 			return false, fmt.Errorf("node for key %X does not exist", key)
 		}
 
 		if req.Status.Equal(hubtypes.StatusUnspecified) || item.Status.Equal(req.Status) {
-			items = append(items, item)
+			if accumulate {
+				items = append(items, item)
+			}
+
 			return true, nil
 		}
 
